@@ -184,3 +184,35 @@ fn multi_class_argmax() {
         assert!(y[i] >= 1 && y[i] <= 3 && got == best);
     }
 }
+
+// ---------- batch 4: cross_validate_single with mock estimator ----------
+use ndarray::{ArrayView1, ArrayView2};
+struct CvParams { bias: u8 }
+struct CvModel { bias: u8 }
+impl<'a> Fit<ArrayView2<'a, u8>, ArrayView1<'a, u8>, Error> for CvParams {
+    type Object = CvModel;
+    fn fit(&self, _d: &DatasetBase<ArrayView2<'a, u8>, ArrayView1<'a, u8>>) -> Result<CvModel, Error> { Ok(CvModel { bias: self.bias }) }
+}
+impl<'a> PredictInplace<ArrayView2<'a, u8>, Array1<u8>> for CvModel {
+    fn predict_inplace<'b>(&'b self, x: &'b ArrayView2<'a, u8>, y: &mut Array1<u8>) {
+        for i in 0..x.nrows() { y[i] = x[(i, 0)].wrapping_add(self.bias); }
+    }
+    fn default_target(&self, x: &ArrayView2<'a, u8>) -> Array1<u8> { Array1::zeros(x.nrows()) }
+}
+#[kani::proof]
+#[kani::unwind(8)]
+#[kani::stub(alloc::fmt::format, fmt_stub)]
+fn cross_validate_is_mean_of_folds() {
+    let v: [u8; 4] = kani::any();
+    for i in 0..4 { kani::assume(v[i] < 8); }
+    let rec = Array2::from_shape_vec((4, 1), v.to_vec()).unwrap();
+    let tar = Array1::from(v.to_vec());
+    let mut ds = Dataset::new(rec.clone(), tar);
+    let models = vec![CvParams { bias: 0 }, CvParams { bias: 1 }];
+    // eval: sum of predictions of the fold (small integers, exact in f32)
+    let r: Array1<f32> = ds.cross_validate_single(2, &models, |pred, _truth| Ok(pred.iter().map(|p| *p as f32).sum::<f32>())).unwrap();
+    let f0 = (v[0] + v[1]) as f32; let f1 = (v[2] + v[3]) as f32;
+    assert!(r[0] == (f0 + f1) / 2.0);
+    assert!(r[1] == ((f0 + 2.0) + (f1 + 2.0)) / 2.0);
+    assert!(ds.records == rec);
+}
